@@ -207,8 +207,16 @@ def enum_cube(tier):
 # ----------------------------------------------------------------------------- sort(list)
 
 _sort_scalar = st.one_of(st.none(), st.integers(-2, 3), st.sampled_from([2 ** 53, 2 ** 53 + 1, 2.0 ** 53]), st.sampled_from([-1.5, 0.0, 1.0, 2.0, 2.5]), _nan, _str,
-                         st.tuples(st.integers(D0, D0 + 3), st.sampled_from([0, 3600])).map(lambda t: ['dt', t[0], t[1]]))
-_homog = [st.integers(-2, 3), st.sampled_from([-1.5, 0.0, 1.0, 2.0, 2.5]), _str, st.one_of(st.integers(-2, 3), st.floats(-2, 3, allow_nan=False).map(lambda f: round(f, 1)), _nan)]
+                         st.tuples(st.integers(D0, D0 + 3), st.sampled_from([0, 3600])).map(lambda t: ['dt', t[0], t[1]]),
+                         # the same instants / numbers in their other types: datetime.date, numpy datetime64, numpy floats and ints
+                         st.integers(D0, D0 + 3).map(lambda o: ['date', o]),
+                         st.tuples(st.integers(D0, D0 + 3), st.sampled_from([0, 3600])).map(lambda t: ['dt64', t[0], t[1], 's']),
+                         st.sampled_from([-1.5, 0.0, 1.0, 2.5]).map(lambda f: ['np', 'float64', f]), st.integers(-2, 3).map(lambda i: ['np', 'int64', i]))
+_dates_mixed = st.one_of(st.tuples(st.integers(D0, D0 + 3), st.sampled_from([0, 3600])).map(lambda t: ['dt', t[0], t[1]]), st.integers(D0, D0 + 3).map(lambda o: ['date', o]),
+                         st.tuples(st.integers(D0, D0 + 3), st.sampled_from([0, 3600])).map(lambda t: ['dt64', t[0], t[1], 's']))
+_nums_mixed = st.one_of(st.integers(-2, 3), st.sampled_from([-1.5, 0.0, 1.0, 2.5]), st.sampled_from([-1.5, 0.0, 1.0, 2.5]).map(lambda f: ['np', 'float64', f]),
+                        st.integers(-2, 3).map(lambda i: ['np', 'int64', i]))
+_homog = [_dates_mixed, _nums_mixed, st.one_of(_dates_mixed, st.none()), st.one_of(_nums_mixed, st.none(), _str), st.integers(-2, 3), st.sampled_from([-1.5, 0.0, 1.0, 2.0, 2.5]), _str, st.one_of(st.integers(-2, 3), st.floats(-2, 3, allow_nan=False).map(lambda f: round(f, 1)), _nan)]
 
 _sort_input = st.one_of(
     st.lists(_sort_scalar, max_size=10).map(lambda v: dict(kind='scalars', xs=v)),
@@ -264,14 +272,20 @@ def run_sort_list(spec):
         cls.append('mixed_types')
     if has_nan and len(classes - {'nan'}) == 1 and spec['kind'] == 'scalars':
         cls.append('nan_among_one_type')
+    flat = [i for v in spec['xs'] for i in ([v] if spec['kind'] == 'scalars' else v[1])]
+    kinds = set(i[0] for i in flat if isinstance(i, list) and i[0] in ('dt', 'date', 'dt64'))
+    if len(kinds) >= 2:
+        cls.append('dates_of_several_types')
+    if any(isinstance(i, list) and i[0] == 'np' for i in flat) and any(isinstance(i, (int, float)) and not isinstance(i, bool) for i in flat):
+        cls.append('python_and_numpy_numbers')
     return dict(nt=nt, cls=cls)
 
 
 # ----------------------------------------------------------------------------- dictable.sort
 
 _cell = st.one_of(st.none(), st.integers(0, 3), st.sampled_from([0.0, 1.0, 2.5]), _nan, st.sampled_from(['a', 'b', 'ab']),
-                  st.integers(D0, D0 + 2).map(lambda o: ['dt', o, 0]))
-_cell_homog = st.sampled_from([st.integers(0, 2), st.sampled_from(['a', 'b', 'c']), st.one_of(st.integers(0, 2), _nan), st.one_of(st.integers(0, 2), st.none())])
+                  st.integers(D0, D0 + 2).map(lambda o: ['dt', o, 0]), st.integers(D0, D0 + 2).map(lambda o: ['date', o]))
+_cell_homog = st.sampled_from([st.one_of(st.integers(D0, D0 + 2).map(lambda o: ['dt', o, 0]), st.integers(D0, D0 + 2).map(lambda o: ['date', o])), st.integers(0, 2), st.sampled_from(['a', 'b', 'c']), st.one_of(st.integers(0, 2), _nan), st.one_of(st.integers(0, 2), st.none())])
 _COLS = ['k', 'j', 'a', 'z']
 
 
@@ -448,9 +462,9 @@ SUBS = [
     EnumSub('cmp_cube', enum_cube, run_cmp_laws, thorough_only=True, chunks=len(POOL),
             rule='every ordered triple of a fixed %i-element pool (all %i); same oracle as cmp_laws' % (len(POOL), len(POOL) ** 3)),
     Sub('sort_list', lambda tier: _sort_input, run_sort_list, quick=4000, thorough=15000,
-        rule='lists (<=10) of None/ints/finite floats/NaN/strings/datetimes and of equal-length (1-3) tuples of them; oracle: permutation, '
+        rule='lists (<=10) of None/ints/finite floats/NaN/strings/datetimes (datetime, date and numpy datetime64 spellings; numpy float64/int64 beside python numbers) and of equal-length (1-3) tuples of them; oracle: permutation, '
              'non-decreasing under cmp, input untouched. non-trivial = length >= 3 and (>= 2 type classes or a NaN)',
-        floor=0.2, class_floors={'nan_among_one_type': 0.03}),
+        floor=0.2, class_floors={'nan_among_one_type': 0.03, 'dates_of_several_types': 0.08, 'python_and_numpy_numbers': 0.1}),
     Sub('sort_list_large', lambda tier: _sort_input_large, run_sort_list, quick=150, thorough=1000,
         rule='lists of 40-256 scalars (or 2-tuples) drawn from pools of 3-6 values incl. NaN objects, None, strings, datetimes, in random / grouped (looks sorted) / reversed / one-off order: size-dependent paths of sort(); same oracle as sort_list',
         floor=0.2),
